@@ -129,40 +129,70 @@ func TestVerif_C19_plugin(t *testing.T) {
 				o, err := p.getMessagesObservation(context.Background(), prev, exectypes.Observation{})
 				done <- res{o, err}
 			}()
-			select {
-			case rr := <-done:
-				if rr.err != nil {
-					return "ObsErr"
-				}
-				ents := make([]string, 0, k)
-				for s := 1; s <= k; s++ {
-					d, ok := rr.o.TokenData[src][cciptypes.SeqNum(s)]
-					if !ok || len(rr.o.Messages[src]) != k {
-						continue
-					}
-					ents = append(ents, cTup(cN(uint64(src)), cNi(s), vC19PTd(d)))
-				}
-				return cApp("Done", cList(ents))
-			case <-time.After(300 * time.Millisecond):
+			// the call normally returns within microseconds; "Blocked" is decided by a watch (3 s AND this goroutine has
+			// itself been scheduled all along), never by a short wall-clock timeout
+			rr, ok := vRecvW(done, 3*time.Second)
+			if !ok {
 				return "Blocked"
 			}
+			if rr.err != nil {
+				return "ObsErr"
+			}
+			ents := make([]string, 0, k)
+			for s := 1; s <= k; s++ {
+				d, ok := rr.o.TokenData[src][cciptypes.SeqNum(s)]
+				if !ok || len(rr.o.Messages[src]) != k {
+					continue
+				}
+				ents = append(ents, cTup(cN(uint64(src)), cNi(s), vC19PTd(d)))
+			}
+			return cApp("Done", cList(ents))
 		}
 		first := observe()
 		// the gate opens: every fetch that arrives is answered, until all k messages have been fetched
 		fetched := 0
-		deadline := time.After(3 * time.Second)
-	open:
 		for fetched < k {
-			select {
-			case c := <-under.arrivals:
-				c.ch <- answers[c.seq]
+			c, ok := vRecvW(under.arrivals, 5*time.Second)
+			if !ok {
+				break
+			}
+			c.ch <- answers[c.seq]
+			fetched++
+		}
+		// The worker stores the data a moment after its fetch returned; asking in between would queue the message again.
+		// No sleep decides when that moment has passed: W sentinel messages (ids nobody else uses) are handed to the
+		// observer and HELD at the gate until W of them are there - then every one of the W workers holds one, so every
+		// worker has finished the job it had before, including the store.  The sentinels are answered "not ready"
+		// (nothing is cached for them) and are not counted.
+		if fetched == k && first != "Blocked" {
+			var held []vC19PCall
+			go func() { // on its own goroutine: an Observe that waits for a free worker must not stop the harness
+				for j := 0; j < W; j++ {
+					var id cciptypes.Bytes32
+					id[0], id[30], id[31] = 0xc9, 0xee, byte(j)
+					seq := cciptypes.SeqNum(1000 + j)
+					sm := cciptypes.Message{Header: cciptypes.RampMessageHeader{MessageID: id, SourceChainSelector: src,
+						DestChainSelector: dest, SequenceNumber: seq},
+						TokenAmounts: []cciptypes.RampTokenAmount{{ExtraData: cciptypes.Bytes{1}, Amount: cciptypes.NewBigIntFromInt64(1)}}}
+					_, _ = tdo.Observe(context.Background(), exectypes.MessageObservations{src: {seq: sm}})
+				}
+			}()
+			for len(held) < W {
+				c, ok := vRecvW(under.arrivals, 5*time.Second)
+				if !ok {
+					break
+				}
+				if c.seq >= 1000 {
+					held = append(held, c)
+					continue
+				}
+				c.ch <- answers[c.seq] // a fetch nobody expects: answered and counted (the model expects none)
 				fetched++
-			case <-deadline:
-				break open
+			}
+			for _, c := range held {
+				c.ch <- exectypes.MessageTokenData{TokenData: []exectypes.TokenData{{Ready: false, Supported: true}}}
 			}
 		}
-		// the worker stores the data a moment after its fetch returned; asking in between would queue the message again
-		time.Sleep(5 * time.Millisecond)
 		second := observe()
 		// a fetch nobody expects must not hang the run: answer and count it (the model expects none)
 		stray := make(chan int, 1)
@@ -172,6 +202,10 @@ func TestVerif_C19_plugin(t *testing.T) {
 			for {
 				select {
 				case c := <-under.arrivals:
+					if c.seq >= 1000 {
+						c.ch <- exectypes.MessageTokenData{TokenData: []exectypes.TokenData{{Ready: false, Supported: true}}}
+						continue
+					}
 					c.ch <- answers[c.seq]
 					extra++
 				case <-stop:
@@ -180,25 +214,14 @@ func TestVerif_C19_plugin(t *testing.T) {
 				}
 			}
 		}()
-		time.Sleep(time.Millisecond)
+		time.Sleep(time.Millisecond) // only gives an unexpected fetch a chance to show up; none is expected
 		closeDone := make(chan struct{})
 		go func() { _ = p.Close(); close(closeDone) }()
-		closeOK := true
-		select {
-		case <-closeDone:
-		case <-time.After(2 * time.Second):
-			closeOK = false
-		}
+		// Close stops idle workers: microseconds. "Did not return" and "goroutines left" are decided by watches.
+		_, closeOK := vRecvW(closeDone, 10*time.Second)
 		close(stop)
 		fetched += <-stray
-		noLeak := false
-		for end := time.Now().Add(time.Second); time.Now().Before(end); {
-			if runtime.NumGoroutine() <= base {
-				noLeak = true
-				break
-			}
-			time.Sleep(200 * time.Microsecond)
-		}
+		noLeak := vAwait(10*time.Second, func() bool { return runtime.NumGoroutine() <= base })
 		in := cTup(cNi(W), cList(msgsCoq), cList(dataCoq))
 		out := cTup(cApp("OObs", first), cApp("OObs", second), cNi(fetched), cBool(closeOK), cBool(noLeak))
 		sink.Emit("plugin", fmt.Sprintf("w%d", W), k > W, cPair(in, out), fmt.Sprintf("workers=%d msgs=%d fetched=%d", W, k, fetched))
